@@ -6,7 +6,7 @@ expectations from the scenario's physical values × unit factor (StepView).
 """
 import math
 
-from .scenario import StepView
+from .scenario import StepView, node_of_tid
 
 EPS = 1e-6
 
@@ -88,10 +88,7 @@ class Oracle(object):
         return out
 
     def node_of(self, tid):
-        try:
-            return int(tid.rsplit('_', 1)[1])
-        except Exception:
-            return None
+        return node_of_tid(tid)
 
     def obs_of(self, tid):
         return tid.split('_', 1)[0]
@@ -509,7 +506,10 @@ class Oracle(object):
             self.prev_queue = qn
         # ---- C19 queries (pure)
         busy_true = (nocc + ning > 0) or any(self.open_holders.get(m) for m in self.open_holders)
-        if True:
+        # The queries are asked only in light-monitor runs.  In the real-monitor runs (C10-C13) the harness asks
+        # nothing, so that a query with a side effect shows up as a difference between a run that asks every
+        # step (Simulation.start()) and one that does not (start(k) + resume).
+        if not self.real_monitor:
             try:
                 ci = c.is_idle()
                 if bool(ci) != (not busy_true):
@@ -608,6 +608,13 @@ class Oracle(object):
         if completed:
             self._c04()
             self._c09_end()
+            # C02: when a simulation ends every machine is back in the available pool, no reservation outstanding
+            r_ = self.sim.cluster._resources
+            if r_['idle'] or r_['occupied'] or r_['ingest'] or sorted(m.id for m in r_['available']) != self.M:
+                self.viol('C02', 'end_state', 'available=%s ingest=%s occupied=%s reservations=%s' % (
+                    [m.id for m in r_['available']], [m.id for m in r_['ingest']], [m.id for m in r_['occupied']],
+                    {k_: [m.id for m in v_] for k_, v_ in r_['idle'].items()}),
+                    site='reservation' if r_['idle'] else 'pools')
             b = self.sim.buffer
             if b.hot[0].current_capacity != b.hot[0].total_capacity or b.cold[0].current_capacity != b.cold[0].total_capacity:
                 self.viol('C07', 'buffers_not_empty_after_last_workflow', 'hot %s/%s cold %s/%s' % (
@@ -980,7 +987,12 @@ class Oracle(object):
                      and s0['tuse'] == 0 and s0['held'] == 0 and s0['prov'] == 0 and s0['inflight'] == 0)
             firstdue = all(not (v.obs[p['name']]['est'] <= t0 and s0['status'][p['name']] == 'WAITING')
                            for p in sc['obs'][:i])
-            if idle0 and firstdue and s0['status'][n] == 'WAITING':
+            fits = (w['demand'] <= sc['arrays'] and w['ingest'] <= min(sc['max_ingest'], self.nM)
+                    and w['vol'] < sc['hot']['capacity'] and w['vol'] <= sc['cold']['capacity']
+                    and w['dur'] >= 1 and w['dur'] == int(w['dur']))
+            if self.res.status in ('exc', 'hang') and self.res.T is not None and self.env.now <= t0:
+                fits = False        # the run aborted in that very step (C05 / C07 report why)
+            if idle0 and firstdue and fits and s0['status'][n] == 'WAITING':
                 self.probe('due_while_idle')
                 if started.get(n) != t0:
                     self.viol('C08', 'late_although_idle', '%s due %s on an idle system, started %s' % (
